@@ -453,8 +453,42 @@ func attDiffKind(got, want string) string {
 	return "result"
 }
 
-var C15 = &fw.Prop{ID: "C15", Gen: genC15, Exec: execAtt,
+// the connection loop itself (classification of the buffered bytes, stage sequence) against the AttStream model:
+// valid sessions and mutations of them, every stream cut into random writes
+func genC15Stream(r *fw.Rng, tier string, emit func(fw.Case)) {
+	n := 4
+	if tier == "thorough" {
+		n = 40
+	}
+	for astype := 1; astype <= 5; astype++ {
+		for i := 0; i < n; i++ {
+			s, pieces := attValidSession(astype, r)
+			for k := 0; k < 3; k++ {
+				emit(fw.Case{Op: "astream", Args: []string{strconv.Itoa(astype), strconv.Itoa(1 + r.Intn(1000000)), fw.Hex(s)}})
+			}
+			emit(fw.Case{Op: "astream", Args: []string{strconv.Itoa(astype), strconv.Itoa(1 + r.Intn(1000000)), fw.Hex(mutateStream(r, s, pieces))}})
+		}
+	}
+}
+
+var C15 = &fw.Prop{ID: "C15",
+	Gen: func(r *fw.Rng, tier string, emit func(fw.Case)) {
+		genC15(r, tier, emit)
+		genC15Stream(r, tier, emit)
+	},
+	Exec: func(c fw.Case) string {
+		if c.Op == "astream" {
+			return execC10(c)
+		}
+		return execAtt(c)
+	},
 	Oracle: func(c fw.Case) *fw.OracleFailure {
+		if c.Op == "astream" {
+			if c10Last.key != c.Op+" "+strings.Join(c.Args, " ") {
+				execC10(c)
+			}
+			return c10Last.orc
+		}
 		if attLast.key == strings.Join(c.Args, " ") {
 			return attLast.orc
 		}
@@ -462,6 +496,9 @@ var C15 = &fw.Prop{ID: "C15", Gen: genC15, Exec: execAtt,
 		return attLast.orc
 	},
 	Class: func(c fw.Case, res string) string {
+		if c.Op == "astream" {
+			return "astream:as" + c.Args[0]
+		}
 		cl := "att:as" + c.Args[0]
 		if strings.Contains(res, "9212/1") {
 			cl += ":retransmit"
